@@ -119,11 +119,59 @@ def params(desc):
         ps += [("v%d" % i, "bool", None, None) for i in range(n)]
     else:
         raise ValueError(op)
-    return ps
+    return ps + first_params(desc)
 
 
 class Rec:
     pass
+
+
+FIRST_OPS = ["move", "remove", "remove_keep", "set_data_wc"]
+
+
+def first_params(desc):
+    n = len(desc["shape"])
+    f = desc.get("first")
+    if not f:
+        return []
+    ps = [("s1", "sel", 0, n - 1)]
+    if f == "move":
+        ps.append(("p1", "sel", -1, n - 1))
+    if f == "set_data_wc":
+        ps.append(("L1", "int", 1, None))
+    return ps
+
+
+def first_op(f, tree, nodes, model, x):
+    """State-shaping first step of a two-step history, applied to the real
+    tree and to the model.  Returns the set of node indices that are gone
+    afterwards, or None if the step is refused / not applicable."""
+    mn = model.nodes
+    s1 = x["s1"]
+    if f == "move":
+        p1 = x["p1"]
+        st = model.move(mn[s1], model.root if p1 < 0 else mn[p1], None)
+    elif f == "remove":
+        st = model.remove(mn[s1], False, False)
+    elif f == "remove_keep":
+        st = model.remove(mn[s1], True, False)
+    else:
+        st = model.set_data(mn[s1], x["L1"], None, True)
+    if st[0] != "ok":
+        return None
+    try:
+        if f == "move":
+            nodes[s1].move_to(tree if x["p1"] < 0 else nodes[x["p1"]])
+        elif f == "remove":
+            nodes[s1].remove()
+        elif f == "remove_keep":
+            nodes[s1].remove(keep_children=True)
+        else:
+            nodes[s1].set_data(x["L1"], with_clones=True)
+    except Exception:  # noqa: BLE001 - a failing first step is the single-step shards' subject
+        return None
+    alive = [m.tok for m in model.all_nodes()]
+    return set(i for i in range(len(nodes)) if i not in alive)
 
 
 def step(ctx, desc, x, pre_hook=None):
@@ -157,8 +205,24 @@ def step(ctx, desc, x, pre_hook=None):
     r.tree, r.nodes, r.reg, r.model = tree, nodes, reg, model
     r.old_node_ids = [nd.node_id for nd in nodes]
     r.pre_inv = B.inv_all(tree) if ctx.native else ""  # builder sanity (native validation pass only)
+    dead = ()
     if pre_hook is not None:
-        pre_hook(tree, nodes)
+        dead = pre_hook(tree, nodes, model) or ()
+    if desc.get("first"):
+        dead = first_op(desc["first"], tree, nodes, model, x)
+        if dead is None:
+            r.skip = True  # first step refused / not applicable: outside this shard's claim
+            return r
+    if dead:
+        for key in ("s", "p"):
+            if key in x and x[key] >= 0 and x[key] in dead:
+                r.skip = True
+                return r
+        if "b" in x:
+            bk, bv = decode_before(x["b"], n)
+            if bk == "node" and bv in dead:
+                r.skip = True
+                return r
     r.obs_before = B.observe(tree, reg)
     if B.obs_equal(r.obs_before, model.observe()):
         r.pre_clause = "builder:pre-state-differs-from-model"
